@@ -19,11 +19,26 @@ open Nat
 
 /-! ### `getThreadDistance` -/
 
-/-- the value before the final `% 2^64`: at least `10^7 + 1`, at most `dist/2 + 31` or `10^7 + 30` -/
-theorem getThreadDistance_bounds (isq dist threads : ℕ) (ht : threads ≠ 1) (hd : dist ≤ umax) :
-    10000000 ≤ getThreadDistance isq dist threads ∧ getThreadDistance isq dist threads < two64 ∧
-    getThreadDistance isq dist threads % 30 = 0 := by
-  unfold getThreadDistance
+/-- `getThreadDistance` in exact arithmetic, i.e. without the wrap of `threadDist += 30 - threadDist % 30` -/
+def threadDistRaw (isq dist threads : ℕ) : ℕ :=
+  let balanced := (isq * 200) % two64
+  let unbalanced := dist / threads
+  let fastest := min balanced unbalanced
+  let iters := dist / fastest
+  let iters := (iters / threads) * threads
+  let iters := max iters threads
+  let threadDist := (dist - 1) / iters + 1
+  let threadDist := max threadDist 10000000
+  threadDist + (30 - threadDist % 30)
+
+theorem getThreadDistance_eq_raw_mod (isq dist threads : ℕ) :
+    getThreadDistance isq dist threads = threadDistRaw isq dist threads % two64 := rfl
+
+/-- the exact value: at least `10^7 + 1`, at most `max (dist/2 + 1) 10^7 + 30 < 2^64`, a multiple of 30 -/
+theorem threadDistRaw_bounds (isq dist threads : ℕ) (ht : threads ≠ 1) (hd : dist ≤ umax) :
+    10000000 ≤ threadDistRaw isq dist threads ∧ threadDistRaw isq dist threads < two64 ∧
+    threadDistRaw isq dist threads % 30 = 0 := by
+  unfold threadDistRaw
   simp only []
   generalize (dist / min (isq * 200 % two64) (dist / threads) / threads) = k0
   have hit : max (k0 * threads) threads = 0 ∨ 2 ≤ max (k0 * threads) threads := by
@@ -43,9 +58,19 @@ theorem getThreadDistance_bounds (isq dist threads : ℕ) (ht : threads ≠ 1) (
   generalize hM : max (q + 1) 10000000 = M at hm
   have hM1 : 10000000 ≤ M := by omega
   have hM2 : M + 30 < two64 := by unfold two64; unfold umax at hd; omega
-  have hlt : M + (30 - M % 30) < two64 := by omega
-  rw [Nat.mod_eq_of_lt hlt]
-  refine ⟨by omega, hlt, by omega⟩
+  refine ⟨by omega, by omega, by omega⟩
+
+/-- the uint64 `+=` of ParallelSieve.cpp:95 does not wrap when `threads != 1` -/
+theorem getThreadDistance_eq_raw (isq dist threads : ℕ) (ht : threads ≠ 1) (hd : dist ≤ umax) :
+    getThreadDistance isq dist threads = threadDistRaw isq dist threads := by
+  rw [getThreadDistance_eq_raw_mod]
+  exact Nat.mod_eq_of_lt (threadDistRaw_bounds isq dist threads ht hd).2.1
+
+theorem getThreadDistance_bounds (isq dist threads : ℕ) (ht : threads ≠ 1) (hd : dist ≤ umax) :
+    10000000 ≤ getThreadDistance isq dist threads ∧ getThreadDistance isq dist threads < two64 ∧
+    getThreadDistance isq dist threads % 30 = 0 := by
+  rw [getThreadDistance_eq_raw isq dist threads ht hd]
+  exact threadDistRaw_bounds isq dist threads ht hd
 
 /-- the multi-thread path (`idealNumThreads() >= 2`): `threadDist >= MIN_THREAD_DISTANCE`, and `threadDist += 30 - threadDist % 30`
     does not wrap; no hypothesis on `isqrt(stop)` -/
